@@ -1006,7 +1006,14 @@ pub fn data_triple() -> impl Strategy<Value = Triple3> {
     // `GRAPH ?g { ... ?g ... }` block that uses its graph variable as a term has answers only over such data
     (0usize..N_SUBJ + 1, 0usize..7, 0usize..63, 0usize..3).prop_map(|(s, p, o, g)| {
         let k = pred_kind(p);
-        let subject = if s == N_SUBJ && g < 3 && o % 3 != 0 { Tm::Iri(GRAPHS[g].to_string()) } else { subj(s) };
+        // ... and one in eighteen has a scheme-less IRI (`<rel0>`, `<rel1>`) as subject
+        let subject = if s == N_SUBJ && g < 3 && o % 3 != 0 {
+            Tm::Iri(GRAPHS[g].to_string())
+        } else if s == N_SUBJ {
+            Tm::Iri(format!("rel{}", g % 2))
+        } else {
+            subj(s)
+        };
         [subject, pred_tm(k), obj_for(k, o)]
     })
 }
